@@ -301,11 +301,36 @@ func genRaw(t *rapid.T, label string, maxLen int) *core.Raw {
 	case 1:
 		return &core.Raw{Kind: "empty"}
 	}
-	r := core.Bin(genRawBytes(t, label, maxLen))
-	if len(r.Bytes) > 48 && rapid.IntRange(0, 2).Draw(t, label+"-wrapped") == 0 {
-		r.Wrap = rapid.SampledFrom([]int{76, 64, 60}).Draw(t, label+"-wrapcol")
+	return core.Bin(genRawBytes(t, label, maxLen))
+}
+
+// wrapWorldRaws turns a third of the long !binary extension values of a world into line-wrapped base64 (as base64(1)
+// and openssl write it), chosen by the bytes themselves so that equal values stay equally written. Only checks that
+// tolerate a refusal of such a value call it: whether line breaks are allowed inside the base64 text is not written
+// down anywhere, but a value that is accepted must arrive complete.
+func wrapWorldRaws(w *World) bool {
+	any := false
+	do := func(xs []core.Extension) {
+		for i := range xs {
+			r := xs[i].Raw
+			if r == nil || r.Kind != "binary" || len(r.Bytes) <= 48 {
+				continue
+			}
+			h := fnv.New32a()
+			h.Write(r.Bytes)
+			if v := h.Sum32(); v%3 == 0 {
+				r.Wrap = []int{76, 64, 60}[v/3%3]
+				any = true
+			}
+		}
 	}
-	return r
+	for i := range w.Ents {
+		do(w.Ents[i].Extensions)
+	}
+	for i := range w.Profs {
+		do(w.Profs[i].Extensions)
+	}
+	return any
 }
 
 func genFileName(t *rapid.T, label string) string {
